@@ -12,7 +12,7 @@ import (
 )
 
 func init() {
-	register("C04", "Structural clauses behind termination and honest results under faults, decided on all paths: every blocking channel operation of the transfer code is a select with a context/close-channel arm (or a range over a channel closed by one deferred close), a failed source access or diff is reported to the peer with an ERR packet before the goroutine returns, the receive loops return success only on the FIN arm (end of stream before FIN is an error), the receiver sends FIN only after a checked diff and a checked wait for the writers, no protocol or source-access error is dropped or survived, every goroutine is started through an errgroup whose Wait precedes the return, and walkers poll the context before each callback. Does not decide time bounds, SIGKILL/crash recovery, convergence of a later transfer, or behaviour when the stream's own SendMsg/RecvMsg never return.", runC04)
+	register("C04", "Structural clauses behind termination and honest results under faults, decided on all paths: every blocking channel operation of the transfer code is a select with a context/close-channel arm (or a range over a channel closed by one deferred close), a failed source access or diff is reported to the peer with an ERR packet before the goroutine returns, the receive loops return success only on the FIN arm (end of stream before FIN is an error), the receiver sends FIN only after a checked diff and a checked wait for the writers, no protocol or source-access error is dropped or survived, every goroutine is started through an errgroup whose Wait precedes the return, and walkers poll the context before each callback. Walk callbacks never go on after a non-nil error argument; no error result in packages fsutil and util is left unread (best-effort sends, closes and tabled callees excepted). Does not decide time bounds, SIGKILL/crash recovery, convergence of a later transfer, or behaviour when the stream's own SendMsg/RecvMsg never return.", runC04)
 }
 
 func runC04(c *Ctx) {
